@@ -44,6 +44,7 @@ type dryFrame struct {
 	siteN     map[string]int
 	exitsLen  int
 	cacheLen  int
+	nonLocal  map[string]bool
 }
 
 func (e *Enc) beginDry(fr *Frame) *dryFrame {
@@ -63,6 +64,8 @@ func (e *Enc) beginDry(fr *Frame) *dryFrame {
 		d.blockOut[k] = v
 	}
 	e.writeLog = map[string]bool{}
+	d.nonLocal = e.writeNonLocal
+	e.writeNonLocal = map[string]bool{}
 	e.dry++
 	return d
 }
@@ -73,6 +76,14 @@ func (e *Enc) endDry(fr *Frame, d *dryFrame) map[string]bool {
 	e.writeLog = d.writeLog
 	for k := range written {
 		e.writeLog[k] = true
+	}
+	e.dryNonLocal = e.writeNonLocal
+	e.writeNonLocal = d.nonLocal
+	for k := range e.dryNonLocal {
+		if e.writeNonLocal == nil {
+			e.writeNonLocal = map[string]bool{}
+		}
+		e.writeNonLocal[k] = true
 	}
 	for _, c := range e.dryCache[d.cacheLen:] {
 		delete(c.st.heap, c.key)
@@ -137,10 +148,19 @@ func (e *Enc) enterLoop(fr *Frame, li *loopInfo, st *State) *State {
 	written := e.endDry(fr, d)
 	// 3. havoc
 	h := st.clone()
+	nonLocal := e.dryNonLocal
 	for _, k := range sortedKeys(written) {
 		if _, ok := e.heapSort[k]; ok {
+			before := e.heapGet(st, k, e.heapSort[k])
 			h.heap[k] = e.fresh(k, e.heapSort[k])
 			e.writeLog[k] = true
+			// every write of the body to this component goes through an object allocated by this function: objects
+			// that existed when the function started are untouched by any number of iterations
+			if !nonLocal[k] && !written["*"] && refIndexedKey(k) {
+				e.assert("(forall ((r Int)) (! (=> (<= r alloc@0) (= (select " + h.heap[k] + " r) (select " + before + " r))) :pattern ((select " + h.heap[k] + " r))))")
+			} else if nonLocal[k] {
+				e.noteNonLocal(k)
+			}
 		}
 	}
 	if written["*"] {
@@ -225,15 +245,17 @@ func (e *Enc) backEdgeObligations(fr *Frame, b *ssa.BasicBlock, st *State, si in
 			}
 		}
 	}
+	var phis []*ssa.Phi
 	for _, in := range s.Instrs {
 		phi, ok := in.(*ssa.Phi)
 		if !ok {
 			break
 		}
 		saved[phi] = fr.vals[phi]
+		phis = append(phis, phi)
 	}
 	newVals := map[*ssa.Phi]*Val{}
-	for phi := range saved {
+	for _, phi := range phis {
 		newVals[phi] = e.val(fr, phi.Edges[predIdx])
 	}
 	for phi, v := range newVals {
@@ -258,4 +280,21 @@ func (e *Enc) backEdgeObligations(fr *Frame, b *ssa.BasicBlock, st *State, si in
 	for phi, v := range saved {
 		fr.vals[phi] = v
 	}
+}
+
+// refIndexedKey: heap components indexed by object reference at the first level.
+func refIndexedKey(k string) bool {
+	for _, p := range []string{"F|", "P|", "S|", "MD|", "MV|"} {
+		if len(k) >= len(p) && k[:len(p)] == p {
+			return true
+		}
+	}
+	return false
+}
+
+func (e *Enc) noteNonLocal(k string) {
+	if e.writeNonLocal == nil {
+		e.writeNonLocal = map[string]bool{}
+	}
+	e.writeNonLocal[k] = true
 }
